@@ -205,7 +205,7 @@ theorem C09_fresh_partial (ros n : Bool) (root : T) (recv : Path) (op : Op)
 def exRoot : T :=
   .node { id := 1, sub := true, cache := some [([Key.s "k"], Atom.int 1)] } .dict [(Key.s "k", .leaf (.int 1))]
 
-/-- COUNTEREXAMPLE (known findings F36 / F35): `clear()` — and an accessor write inside
+/-- COUNTEREXAMPLE (known findings F55 / F54): `clear()` — and an accessor write inside
 `notify_on_change(False)` — leave the memoised value of the container stale. Replayed on the real
 code by the witnesses of findings/C09.json. -/
 theorem C09_fresh_counterexample : ¬ C09_fresh_Full := by
